@@ -116,14 +116,40 @@ func Guard(timeout time.Duration, fn func() error) (name string) {
 		}()
 		done <- ErrName(fn())
 	}()
-	select {
-	case s := <-done:
-		return s
-	case <-time.After(timeout):
-		buf := make([]byte, 1<<20)
-		n := runtime.Stack(buf, true)
-		fmt.Fprintf(os.Stderr, "STUCK engine call; goroutines:\n%s\n", buf[:n])
-		return "stuck"
+	deadline := time.After(timeout)
+	tick := time.NewTicker(100 * time.Millisecond)
+	defer tick.Stop()
+	for {
+		select {
+		case s := <-done:
+			return s
+		case <-tick.C:
+			// a call that allocates gigabytes is a runaway loop (e.g. a writer that makes no progress):
+			// it is reported like a hang before the machine runs out of memory
+			var ms runtime.MemStats
+			runtime.ReadMemStats(&ms)
+			if ms.HeapAlloc > RunawayBytes {
+				fmt.Fprintf(os.Stderr, "STUCK engine call: runaway allocation (%d MiB)\n", ms.HeapAlloc>>20)
+				return "stuck"
+			}
+		case <-deadline:
+			buf := make([]byte, 1<<20)
+			n := runtime.Stack(buf, true)
+			fmt.Fprintf(os.Stderr, "STUCK engine call; goroutines:\n%s\n", buf[:n])
+			return "stuck"
+		}
+	}
+}
+
+// RunawayBytes is the heap size beyond which a call in flight counts as stuck.
+var RunawayBytes uint64 = 6 << 30
+
+// ExitIfStuck ends the driver after a hung or runaway call has been logged: the
+// goroutine stuck inside the engine cannot be stopped, so no further trace can be recorded.
+func ExitIfStuck(name string, t *Trace) {
+	if name == "stuck" {
+		t.Close()
+		os.Exit(0)
 	}
 }
 
@@ -295,6 +321,9 @@ func (e *Eng) op(op string, k, v, n, a int, res int, err string) {
 		e.T.Emit(Ev{"ev": "ret", "op": op, "k": k, "res": res, "err": err})
 	} else {
 		e.T.Emit(Ev{"ev": "op", "op": op, "k": k, "v": v, "n": n, "a": a, "res": res, "err": err})
+	}
+	if err == "stuck" && e.T.Buf == nil {
+		ExitIfStuck(err, e.T)
 	}
 	e.scribble()
 }
